@@ -307,6 +307,9 @@ def run_property(pid, tasks, tier, seed, meta):
         for v in r['violations']:
             if t.kinds is not None and v['kind'] not in t.kinds:
                 continue
+            mp = t.opts.get('msg_prefix')
+            if mp and v['kind'] == 'assert' and not v['msg'].startswith(tuple(mp)) and ':' in v['msg'][:5]:
+                continue
             k = norm_key(t.tid, v)
             if k in seen:
                 continue
